@@ -40,9 +40,12 @@ class Inv:
                     referenced.update(x.casefold() for x in v.split(","))
         self.referenced = referenced
         self.unit_classes = sorted(c.name for c in s.unit_classes.values() if "deprecatedFrom" not in c.attributes)
+        self.std_unit_classes = {c.name for c in s.unit_classes.values() if "inLibrary" not in c.attributes}
         self.value_classes = sorted(c.name for c in s.value_classes.values() if "deprecatedFrom" not in c.attributes)
         self.other_names = {sec: {e.name for e in s[key].values()} for sec, key in _keys().items()}
         self.default_units = {c.attributes.get("defaultUnits") for c in s.unit_classes.values()}
+        # top-level standard nodes without extensionAllowed (their subtree is kept in file order by the schema object)
+        self.plain_roots = {e.short_tag_name for e in s.tags.values() if "/" not in e.name and "extensionAllowed" not in e.attributes}
         adefs = {a.name: set(a.attributes) for a in s.attributes.values()}
         self.adefs = adefs
 
@@ -470,7 +473,9 @@ class Editor:
         for c in cont.findall("unitClassDefinition"):
             units = c.findall("unit")
             for u in units:
-                if _name(u) not in self.inv.default_units and len(units) > 1 and "deprecatedFrom" not in _attrs(u) \
+                derived_default = any(isinstance(d, str) and d.casefold().endswith(_name(u).casefold())
+                                      for d in self.inv.default_units)      # e.g. default 'fT' is derived from unit 'T'
+                if not derived_default and len(units) > 1 and "deprecatedFrom" not in _attrs(u) \
                         and not any(s.get("name") == _name(u) for s in self.specs):
                     cands.append((c, u))
         if not cands:
